@@ -183,27 +183,29 @@ theorem signed_getElem (body T : Bytes) (n i : Nat) (hl : 12 ≤ body.length) (h
 
 theorem u32_zero : u32 0 = u16 0 ++ u16 0 := by decide
 
-/-- the TSIG RR of a signed message goes through `readRR` -/
-theorem readRR_signed (V : Verifier) (tbl : List AlgEntry) (strict : Bool) (B o : Bytes) (rd : Rdata) (k : Key) (owner : Name)
-    (now : Nat) (rm : Bytes) (ctx : Option Ctx) (multi : Bool) (ar : Nat) (c : Ctx) (c' : Option Ctx)
+/-- the TSIG RR of a signed message goes through `readRR`, whatever octets follow the message -/
+theorem readRR_signed_post (V : Verifier) (tbl : List AlgEntry) (strict : Bool) (B o : Bytes) (rd : Rdata) (k : Key) (owner : Name)
+    (now : Nat) (rm : Bytes) (ctx : Option Ctx) (multi : Bool) (ar : Nat) (c : Ctx) (c' : Option Ctx) (post : Bytes)
     (hown : OwnerEncodes B o owner) (hrd : RdataOk rd) (hL : (rdataWire rd).length < 65536)
-    (hv : validateV V tbl (B ++ tsigRR o rd) k owner rd now rm B.length ctx multi = .ok (c, c')) :
-    readRR V tbl strict (B ++ tsigRR o rd) (.key k) now rm multi 3 (ar + 1) ar ⟨B.length, none, ctx⟩
+    (hv : validateV V tbl (B ++ tsigRR o rd ++ post) k owner rd now rm B.length ctx multi = .ok (c, c')) :
+    readRR V tbl strict (B ++ tsigRR o rd ++ post) (.key k) now rm multi 3 (ar + 1) ar ⟨B.length, none, ctx⟩
       = .ok ⟨(B ++ tsigRR o rd).length, some ⟨owner, rd, some (c, rd.mac)⟩, c'⟩ := by
   -- shapes of the message
-  have sh0 : B ++ tsigRR o rd = B ++ o ++ (u16 ConstsC14.typeTsig ++ (u16 ConstsC14.classAny ++ (u16 0 ++ (u16 0 ++
-      (u16 (rdataWire rd).length ++ rdataWire rd))))) := by
+  have sh0 : B ++ tsigRR o rd ++ post = B ++ o ++ (u16 ConstsC14.typeTsig ++ (u16 ConstsC14.classAny ++ (u16 0 ++ (u16 0 ++
+      (u16 (rdataWire rd).length ++ (rdataWire rd ++ post)))))) := by
     unfold tsigRR; rw [u32_zero]; simp [List.append_assoc]
-  generalize hW : B ++ tsigRR o rd = W at *
-  have hlenW : W.length = B.length + o.length + 10 + (rdataWire rd).length := by
+  have hlenT : (B ++ tsigRR o rd).length = B.length + o.length + 10 + (rdataWire rd).length := by
+    unfold tsigRR; simp [u16, u32]; omega
+  generalize hW : B ++ tsigRR o rd ++ post = W at *
+  have hlenW : W.length = B.length + o.length + 10 + (rdataWire rd).length + post.length := by
     rw [sh0]; simp [u16]; omega
   have hskip : skipName W W.length (W.length + 1) B.length = some (B.length + o.length) := by
     have := hown.skip (u16 ConstsC14.typeTsig ++ (u16 ConstsC14.classAny ++ (u16 0 ++ (u16 0 ++
-      (u16 (rdataWire rd).length ++ rdataWire rd)))))
+      (u16 (rdataWire rd).length ++ (rdataWire rd ++ post))))))
     rwa [← sh0] at this
   have hdec : decodeName W B.length = .ok owner := by
     have := hown.dec (u16 ConstsC14.typeTsig ++ (u16 ConstsC14.classAny ++ (u16 0 ++ (u16 0 ++
-      (u16 (rdataWire rd).length ++ rdataWire rd)))))
+      (u16 (rdataWire rd).length ++ (rdataWire rd ++ post))))))
     rwa [← sh0] at this
   generalize hp : B.length + o.length = p at *
   have hpl : (B ++ o).length = p := by simp; omega
@@ -211,28 +213,28 @@ theorem readRR_signed (V : Verifier) (tbl : List AlgEntry) (strict : Bool) (B o 
     rw [sh0]; exact rd16_mid' _ _ _ _ (by decide) hpl.symm
   have f2 : rd16 W (p + 2) = ConstsC14.classAny := by
     have e : W = (B ++ o ++ u16 ConstsC14.typeTsig) ++ (u16 ConstsC14.classAny ++ (u16 0 ++ (u16 0 ++
-        (u16 (rdataWire rd).length ++ rdataWire rd)))) := by rw [sh0]; simp [List.append_assoc]
+        (u16 (rdataWire rd).length ++ (rdataWire rd ++ post))))) := by rw [sh0]; simp [List.append_assoc]
     rw [e]; exact rd16_mid' _ _ _ _ (by decide) (by simp [u16]; omega)
   have f3 : rd16 W (p + 4) = 0 := by
     have e : W = (B ++ o ++ u16 ConstsC14.typeTsig ++ u16 ConstsC14.classAny) ++ (u16 0 ++ (u16 0 ++
-        (u16 (rdataWire rd).length ++ rdataWire rd))) := by rw [sh0]; simp [List.append_assoc]
+        (u16 (rdataWire rd).length ++ (rdataWire rd ++ post)))) := by rw [sh0]; simp [List.append_assoc]
     rw [e]; exact rd16_mid' _ _ _ _ (by decide) (by simp [u16]; omega)
   have f4 : rd16 W (p + 4 + 2) = 0 := by
     have e : W = (B ++ o ++ u16 ConstsC14.typeTsig ++ u16 ConstsC14.classAny ++ u16 0) ++ (u16 0 ++
-        (u16 (rdataWire rd).length ++ rdataWire rd)) := by rw [sh0]; simp [List.append_assoc]
+        (u16 (rdataWire rd).length ++ (rdataWire rd ++ post))) := by rw [sh0]; simp [List.append_assoc]
     rw [e]; exact rd16_mid' _ _ _ _ (by decide) (by simp [u16]; omega)
   have f5 : rd16 W (p + 8) = (rdataWire rd).length := by
     have e : W = (B ++ o ++ u16 ConstsC14.typeTsig ++ u16 ConstsC14.classAny ++ u16 0 ++ u16 0) ++
-        (u16 (rdataWire rd).length ++ rdataWire rd) := by rw [sh0]; simp [List.append_assoc]
+        (u16 (rdataWire rd).length ++ (rdataWire rd ++ post)) := by rw [sh0]; simp [List.append_assoc]
     rw [e]; exact rd16_mid' _ _ _ _ hL (by simp [u16]; omega)
   have f6 : rdataParse W (p + 10) (p + 10 + (rdataWire rd).length) = .ok rd := by
     have e : W = (B ++ o ++ u16 ConstsC14.typeTsig ++ u16 ConstsC14.classAny ++ u16 0 ++ u16 0 ++
-        u16 (rdataWire rd).length) ++ rdataWire rd := by rw [sh0]; simp [List.append_assoc]
+        u16 (rdataWire rd).length) ++ rdataWire rd ++ post := by rw [sh0]; simp [List.append_assoc]
     have hA : (B ++ o ++ u16 ConstsC14.typeTsig ++ u16 ConstsC14.classAny ++ u16 0 ++ u16 0 ++
         u16 (rdataWire rd).length).length = p + 10 := by simp [u16]; omega
-    have := rdataParse_rdataWire (B ++ o ++ u16 ConstsC14.typeTsig ++ u16 ConstsC14.classAny ++ u16 0 ++ u16 0 ++
-        u16 (rdataWire rd).length) rd hrd
-    rw [← e, hA, hlenW] at this
+    have := rdataParse_rdataWire_post (B ++ o ++ u16 ConstsC14.typeTsig ++ u16 ConstsC14.classAny ++ u16 0 ++ u16 0 ++
+        u16 (rdataWire rd).length) rd post hrd
+    rw [← e, hA] at this
     exact this
   unfold readRR
   simp only [hskip]
@@ -243,6 +245,15 @@ theorem readRR_signed (V : Verifier) (tbl : List AlgEntry) (strict : Bool) (B o 
   simp only [g1, if_false, f1, if_true, g2, g3, f5, g4, hdec, f6, resolveKey, hv]
   congr 2
   omega
+
+theorem readRR_signed (V : Verifier) (tbl : List AlgEntry) (strict : Bool) (B o : Bytes) (rd : Rdata) (k : Key) (owner : Name)
+    (now : Nat) (rm : Bytes) (ctx : Option Ctx) (multi : Bool) (ar : Nat) (c : Ctx) (c' : Option Ctx)
+    (hown : OwnerEncodes B o owner) (hrd : RdataOk rd) (hL : (rdataWire rd).length < 65536)
+    (hv : validateV V tbl (B ++ tsigRR o rd) k owner rd now rm B.length ctx multi = .ok (c, c')) :
+    readRR V tbl strict (B ++ tsigRR o rd) (.key k) now rm multi 3 (ar + 1) ar ⟨B.length, none, ctx⟩
+      = .ok ⟨(B ++ tsigRR o rd).length, some ⟨owner, rd, some (c, rd.mac)⟩, c'⟩ := by
+  have := readRR_signed_post V tbl strict B o rd k owner now rm ctx multi ar c c' [] hown hrd hL (by simpa using hv)
+  simpa using this
 
 theorem readSection_all (V : Verifier) (tbl : List AlgEntry) (strict : Bool) (w : Bytes) (kr : Keyring) (now : Nat)
     (rm : Bytes) (multi : Bool) (sec n cur q : Nat) (t : Option Found) (c : Option Ctx)
@@ -257,7 +268,7 @@ theorem readV_unsigned_ok (V : Verifier) (tbl : List AlgEntry) (strict : Bool) (
     readV V tbl strict body kr now rm ctx multi
       = .ok ⟨none, if multi then ctx.map (·.update body) else ctx⟩ := by
   obtain ⟨p0, p1, p2, h0, h1, h2, h3⟩ := hb.walk
-  unfold readV
+  unfold readV readVI
   have hl : ¬ body.length < 12 := by have := hb.len; omega
   simp only [hl, if_false, h0]
   rw [readSection_all V tbl strict body kr now rm multi 1 _ p0 p1 none ctx h1]
@@ -265,7 +276,7 @@ theorem readV_unsigned_ok (V : Verifier) (tbl : List AlgEntry) (strict : Bool) (
   rw [readSection_all V tbl strict body kr now rm multi 2 _ p1 p2 none ctx h2]
   simp only
   rw [readSection_all V tbl strict body kr now rm multi 3 _ p2 body.length none ctx h3]
-  simp only [ne_eq, not_true_eq_false, if_false]
+  simp only [ne_eq, not_true_eq_false, and_false, if_false, List.take_length]
   cases multi <;> cases ctx <;> rfl
 
 /-- **the reader accepts what the signing tail of `to_wire` produced**, given that `validate` does -/
@@ -302,7 +313,7 @@ theorem readV_signed_ok (V : Verifier) (tbl : List AlgEntry) (strict : Bool) (bo
   have hrr := readRR_signed V tbl strict B o rd k owner now rm ctx multi (rd16 body 10) c c' hown hrd hL
     (by rw [hBl]; exact hv)
   rw [hBl] at hrr
-  unfold readV
+  unfold readV readVI
   have hl12 : ¬ (B ++ tsigRR o rd).length < 12 := by omega
   simp only [hl12, if_false, c4, c6, c8, c10, t0]
   rw [readSection_all V tbl strict _ (.key k) now rm multi 1 _ p0 p1 none ctx t1]
@@ -310,7 +321,102 @@ theorem readV_signed_ok (V : Verifier) (tbl : List AlgEntry) (strict : Bool) (bo
   rw [readSection_all V tbl strict _ (.key k) now rm multi 2 _ p1 p2 none ctx t2]
   simp only
   rw [readSection_skip V tbl strict _ (.key k) now rm multi 3 (rd16 body 10 + 1) 1 none ctx (rd16 body 10) p2 body.length t3]
-  simp only [readSection, Nat.zero_add, Nat.add_sub_cancel, hrr, ne_eq, not_true_eq_false, if_false]
+  simp only [readSection, Nat.zero_add, Nat.add_sub_cancel, hrr, ne_eq, not_true_eq_false, and_false, if_false]
+
+/-! ### octets after the message (`ignore_trailing=True`) -/
+
+theorem rd16_append_left (w junk : Bytes) (i : Nat) (h : i + 2 ≤ w.length) : rd16 (w ++ junk) i = rd16 w i :=
+  rd16_congr _ _ i (List.getElem?_append_left (by omega)) (List.getElem?_append_left (by omega))
+
+theorem newWire_append (w junk : Bytes) (s : Nat) (hl : 12 ≤ w.length) (hs : s ≤ w.length) :
+    newWire (w ++ junk) s = newWire w s := by
+  unfold newWire slice
+  simp only [ConstsC14.arcountOff, ConstsC14.arcountEnd]
+  rw [rd16_append_left w junk 10 (by omega), List.take_append_of_le_length (by omega),
+    List.take_append_of_le_length hs]
+
+/-- `validate` does not see octets after the message -/
+theorem validateV_append (V : Verifier) (tbl : List AlgEntry) (w junk : Bytes) (k : Key) (owner : Name) (rd : Rdata)
+    (now : Nat) (rm : Bytes) (s : Nat) (ctx : Option Ctx) (multi : Bool) (hl : 12 ≤ w.length) (hs : s ≤ w.length) :
+    validateV V tbl (w ++ junk) k owner rd now rm s ctx multi = validateV V tbl w k owner rd now rm s ctx multi := by
+  rw [validateV_spec, validateV_spec, rd16_append_left w junk 10 (by omega), newWire_append w junk s hl hs]
+
+/-- an unsigned envelope followed by any octets, read with `ignore_trailing`: only the message is digested -/
+theorem readVI_unsigned_junk (V : Verifier) (tbl : List AlgEntry) (strict : Bool) (body junk : Bytes) (kr : Keyring) (now : Nat)
+    (rm : Bytes) (ctx : Option Ctx) (multi : Bool) (hb : BodyOk body) :
+    readVI true V tbl strict (body ++ junk) kr now rm ctx multi
+      = .ok ⟨none, if multi then ctx.map (·.update body) else ctx⟩ := by
+  obtain ⟨p0, p1, p2, h0, h1, h2, h3⟩ := hb.walk
+  have hl := hb.len
+  have hgd : ∀ i, i < body.length → (body ++ junk).getD i 0 = body.getD i 0 :=
+    fun i a => getD_of_getElem? body _ i (List.getElem?_append_left a)
+  have b0 := skipQuestions_bounds body _ _ _ h0
+  have b1 := skipRRsNT_bounds body _ _ _ h1
+  have b2 := skipRRsNT_bounds body _ _ _ h2
+  have hWl : body.length ≤ (body ++ junk).length := by simp
+  have t0 := skipQuestions_transfer body (body ++ junk) _ _ _ h0 (by omega) (fun i a b => hgd i (by omega))
+  have t1 := skipRRsNT_transfer body (body ++ junk) _ _ _ h1 (by omega) (fun i a b => hgd i (by omega))
+  have t2 := skipRRsNT_transfer body (body ++ junk) _ _ _ h2 (by omega) (fun i a b => hgd i (by omega))
+  have t3 := skipRRsNT_transfer body (body ++ junk) _ _ _ h3 (by omega) (fun i a b => hgd i (by omega))
+  unfold readVI
+  have hl12 : ¬ (body ++ junk).length < 12 := by omega
+  simp only [hl12, if_false, rd16_append_left body junk 4 (by omega), rd16_append_left body junk 6 (by omega),
+    rd16_append_left body junk 8 (by omega), rd16_append_left body junk 10 (by omega), t0]
+  rw [readSection_all V tbl strict _ kr now rm multi 1 _ p0 p1 none ctx t1]
+  simp only
+  rw [readSection_all V tbl strict _ kr now rm multi 2 _ p1 p2 none ctx t2]
+  simp only
+  rw [readSection_all V tbl strict _ kr now rm multi 3 _ p2 body.length none ctx t3]
+  simp only [Bool.true_eq_false, false_and, if_false, List.take_left']
+  cases multi <;> cases ctx <;> simp
+
+/-- a signed envelope followed by any octets, read with `ignore_trailing`: accepted exactly as without them -/
+theorem readVI_signed_junk (V : Verifier) (tbl : List AlgEntry) (strict : Bool) (body o junk : Bytes) (rd : Rdata) (k : Key)
+    (owner : Name) (now : Nat) (rm : Bytes) (ctx : Option Ctx) (multi : Bool) (c : Ctx) (c' : Option Ctx)
+    (hb : BodyOk body) (hcnt : rd16 body 10 + 1 < 65536)
+    (hown : OwnerEncodes (setArcount body (rd16 body 10 + 1)) o owner) (hrd : RdataOk rd)
+    (hL : (rdataWire rd).length < 65536)
+    (hv : validateV V tbl (appendTsig body o rd) k owner rd now rm body.length ctx multi = .ok (c, c')) :
+    readVI true V tbl strict (appendTsig body o rd ++ junk) (.key k) now rm ctx multi
+      = .ok ⟨some ⟨owner, rd, some (c, rd.mac)⟩, c'⟩ := by
+  obtain ⟨p0, p1, p2, h0, h1, h2, h3⟩ := hb.walk
+  have hl := hb.len
+  rw [appendTsig_split body o rd hl] at hv ⊢
+  generalize hB : setArcount body (rd16 body 10 + 1) = B at *
+  have hBl : B.length = body.length := by rw [← hB]; exact setArcount_length _ _ hl
+  have hge : ∀ i, (i < 10 ∨ 12 ≤ i) → i < body.length → (B ++ tsigRR o rd ++ junk)[i]? = body[i]? := by
+    intro i h1 h2
+    rw [List.getElem?_append_left (by simp [hBl]; omega), ← hB]
+    exact signed_getElem body _ _ i hl h1 h2
+  have hgd : ∀ i, 12 ≤ i → i < body.length → (B ++ tsigRR o rd ++ junk).getD i 0 = body.getD i 0 :=
+    fun i a b => getD_of_getElem? body _ i (hge i (Or.inr a) b)
+  have c4 : rd16 (B ++ tsigRR o rd ++ junk) 4 = rd16 body 4 := rd16_congr _ _ 4 (hge 4 (by omega) (by omega)) (hge 5 (by omega) (by omega))
+  have c6 : rd16 (B ++ tsigRR o rd ++ junk) 6 = rd16 body 6 := rd16_congr _ _ 6 (hge 6 (by omega) (by omega)) (hge 7 (by omega) (by omega))
+  have c8 : rd16 (B ++ tsigRR o rd ++ junk) 8 = rd16 body 8 := rd16_congr _ _ 8 (hge 8 (by omega) (by omega)) (hge 9 (by omega) (by omega))
+  have c10 : rd16 (B ++ tsigRR o rd ++ junk) 10 = rd16 body 10 + 1 := by
+    rw [List.append_assoc, ← hB]; exact setArcount_rd16_10 body _ hl hcnt _
+  have b0 := skipQuestions_bounds body _ _ _ h0
+  have b1 := skipRRsNT_bounds body _ _ _ h1
+  have b2 := skipRRsNT_bounds body _ _ _ h2
+  have hWl : body.length ≤ (B ++ tsigRR o rd ++ junk).length := by simp [hBl] <;> omega
+  have t0 := skipQuestions_transfer body (B ++ tsigRR o rd ++ junk) _ _ _ h0 (by omega) (fun i a b => hgd i a (by omega))
+  have t1 := skipRRsNT_transfer body (B ++ tsigRR o rd ++ junk) _ _ _ h1 (by omega) (fun i a b => hgd i (by omega) (by omega))
+  have t2 := skipRRsNT_transfer body (B ++ tsigRR o rd ++ junk) _ _ _ h2 (by omega) (fun i a b => hgd i (by omega) (by omega))
+  have t3 := skipRRsNT_transfer body (B ++ tsigRR o rd ++ junk) _ _ _ h3 (by omega) (fun i a b => hgd i (by omega) (by omega))
+  have hv' : validateV V tbl (B ++ tsigRR o rd ++ junk) k owner rd now rm B.length ctx multi = .ok (c, c') := by
+    rw [validateV_append V tbl (B ++ tsigRR o rd) junk k owner rd now rm B.length ctx multi (by simp [hBl]; omega) (by simp), hBl]
+    exact hv
+  have hrr := readRR_signed_post V tbl strict B o rd k owner now rm ctx multi (rd16 body 10) c c' junk hown hrd hL hv'
+  rw [hBl] at hrr
+  unfold readVI
+  have hl12 : ¬ (B ++ tsigRR o rd ++ junk).length < 12 := by omega
+  simp only [hl12, if_false, c4, c6, c8, c10, t0]
+  rw [readSection_all V tbl strict _ (.key k) now rm multi 1 _ p0 p1 none ctx t1]
+  simp only
+  rw [readSection_all V tbl strict _ (.key k) now rm multi 2 _ p1 p2 none ctx t2]
+  simp only
+  rw [readSection_skip V tbl strict _ (.key k) now rm multi 3 (rd16 body 10 + 1) 1 none ctx (rd16 body 10) p2 body.length t3]
+  simp only [readSection, Nat.zero_add, Nat.add_sub_cancel, hrr, Bool.true_eq_false, false_and, if_false]
 
 /-! ### an uncompressed owner name -/
 
@@ -473,6 +579,42 @@ theorem sign_then_read_core (H : Hmac) (strict : Bool) (key : Key) (body o : Byt
     exact readV_signed_ok (verifyWith H) algTable strict body o rd' key owner vnow rm ctx multi c ctx' hok.bodyOk hok.cnt
       hok.enc hrd hL hv
 
+/-- the same with octets after the message and `ignore_trailing=True` -/
+theorem sign_then_read_core_junk (H : Hmac) (strict : Bool) (junk : Bytes) (key : Key) (body o : Bytes) (owner : Name) (rd : Rdata)
+    (now vnow : Nat) (rm : Bytes) (ctx : Option Ctx) (multi : Bool)
+    (hok : SignedOk H key body o owner rd now vnow) :
+    ∃ wire rd' ctx' c, signMessage H algTable body o key rd now rm ctx multi = .ok (wire, rd', ctx')
+      ∧ wire = appendTsig body o rd' ∧ SignedFields H rd rd' now
+      ∧ newWire wire body.length = body
+      ∧ readI true H algTable strict (wire ++ junk) (.key key) vnow rm ctx multi
+          = .ok ⟨some ⟨owner, rd', some (c, rd'.mac)⟩, ctx'⟩ := by
+  obtain ⟨e, he, hk⟩ := hok.alg
+  have hsz := hok.size
+  obtain ⟨wire, rd', ctx', c, hs, hw, hf, hv⟩ := sign_then_validate_gen H e he key hk body o owner rd now vnow rm ctx multi
+    hok.bodyOk.len hok.bodyOk.oct hok.cnt hok.own hok.rdalg hok.err (by omega) hok.win
+  refine ⟨wire, rd', ctx', c, hs, hw, hf, ?_, ?_⟩
+  · rw [hw]; exact newWire_appendTsig body o rd' hok.bodyOk.len hok.bodyOk.oct hok.cnt
+  · obtain ⟨c0, hmac⟩ := hf.mac
+    have hml : rd'.mac.length ≤ 64 := by
+      rw [hmac]; exact Nat.le_trans (sign_length_le H c0) (hok.hmac _ _ _)
+    have hrd : RdataOk rd' := by
+      refine ⟨?_, ?_, ?_, ?_, by omega, ?_, ?_, ?_⟩
+      · rw [hf.alg, hok.rdalg]; exact hok.algWf
+      · rw [hf.alg, hok.rdalg]; exact hok.algAbs
+      · rw [hf.time]; exact hok.time
+      · rw [hf.fudge]; exact hok.fudge
+      · rw [hf.oid]; exact hok.oid
+      · rw [hf.err, hok.err]; exact Nat.zero_le _
+      · rw [hf.other]; omega
+    have hL : (rdataWire rd').length < 65536 := by
+      unfold rdataWire timeEncoded
+      simp only [List.length_append, u16, u32, List.length_cons, List.length_nil, hf.alg, hok.rdalg, hf.other]
+      omega
+    unfold readI
+    rw [hw] at hv ⊢
+    exact readVI_signed_junk (verifyWith H) algTable strict body o junk rd' key owner vnow rm ctx multi c ctx' hok.bodyOk hok.cnt
+      hok.enc hrd hL hv
+
 /-! ### whole exchanges -/
 
 /-- an envelope of a multi-message response as the sender builds it -/
@@ -545,6 +687,57 @@ theorem sign_then_read_exchange_core (H : Hmac) (strict : Bool) (key : Key) (rm 
       refine ⟨body :: ws, ⟨none, ctx.map (·.update body)⟩ :: rs, ?_, ?_, by simp [h3], ?_⟩
       · simp [signExchange, h1]
       · simp only [List.map_cons, List.zip_cons_cons, readExchange, SEnv.vnow, read]
+        rw [hr]
+        simp [h2]
+      · simp [SEnv.isSigned, h4]
+
+/-- the receiving side with `ignore_trailing=True`: every envelope may be followed by octets that are not part of it -/
+def readExchangeJ (H : Hmac) (strict : Bool) (key : Key) (rm : Bytes) :
+    Option Ctx → List (Bytes × Bytes × Nat) → Except Err (List ReadOk)
+  | _, [] => .ok []
+  | ctx, (w, junk, vnow) :: rest =>
+    match readI true H algTable strict (w ++ junk) (.key key) vnow rm ctx true with
+    | .error e => .error e
+    | .ok r =>
+      match readExchangeJ H strict key rm r.ctx rest with
+      | .error e => .error e
+      | .ok rs => .ok (r :: rs)
+
+theorem sign_then_read_exchange_junk_core (H : Hmac) (strict : Bool) (key : Key) (rm : Bytes) (envs : List SEnv) :
+    ∀ (ctx : Option Ctx) (junks : List Bytes), junks.length = envs.length → (∀ e ∈ envs, SEnv.Ok H key e) →
+      ∃ ws rs, signExchange H key rm ctx envs = .ok ws
+        ∧ readExchangeJ H strict key rm ctx (ws.zip (junks.zip (envs.map SEnv.vnow))) = .ok rs
+        ∧ ws.length = envs.length
+        ∧ rs.map (fun r => r.tsig.isSome) = envs.map SEnv.isSigned := by
+  induction envs with
+  | nil =>
+    intro ctx junks hj _
+    cases junks with
+    | nil => exact ⟨[], [], rfl, rfl, rfl, rfl⟩
+    | cons _ _ => simp at hj
+  | cons e rest ih =>
+    intro ctx junks hj hall
+    cases junks with
+    | nil => simp at hj
+    | cons junk junks =>
+    have hj' : junks.length = rest.length := by simpa using hj
+    have he := hall e (by simp)
+    have hrest : ∀ x ∈ rest, SEnv.Ok H key x := fun x hx => hall x (by simp [hx])
+    cases e with
+    | signed body o owner rd now vnow =>
+      obtain ⟨wire, rd', ctx', c, hs, _, _, _, hr⟩ :=
+        sign_then_read_core_junk H strict junk key body o owner rd now vnow rm ctx true he
+      obtain ⟨ws, rs, h1, h2, h3, h4⟩ := ih ctx' junks hj' hrest
+      refine ⟨wire :: ws, ⟨some ⟨owner, rd', some (c, rd'.mac)⟩, ctx'⟩ :: rs, ?_, ?_, by simp [h3], ?_⟩
+      · simp [signExchange, hs, h1]
+      · simp [readExchangeJ, SEnv.vnow, hr, h2]
+      · simp [SEnv.isSigned, h4]
+    | unsigned body vnow =>
+      obtain ⟨ws, rs, h1, h2, h3, h4⟩ := ih (ctx.map (·.update body)) junks hj' hrest
+      have hr := readVI_unsigned_junk (verifyWith H) algTable strict body junk (.key key) vnow rm ctx true he
+      refine ⟨body :: ws, ⟨none, ctx.map (·.update body)⟩ :: rs, ?_, ?_, by simp [h3], ?_⟩
+      · simp [signExchange, h1]
+      · simp only [List.map_cons, List.zip_cons_cons, readExchangeJ, SEnv.vnow, readI]
         rw [hr]
         simp [h2]
       · simp [SEnv.isSigned, h4]
